@@ -587,7 +587,7 @@ func init() {
 		cmd.Env = append(os.Environ(), fmt.Sprintf("VERIF_C10_PROG=%d", idx), "GOTRACEBACK=single", "VERIF_REPLAY=")
 		out, _ := cmd.CombinedOutput()
 		text := string(out)
-		if strings.Contains(text, "CHILD-RESULT") && strings.Contains(text, "panic=\"\"") {
+		if strings.Contains(text, "CHILD-RESULT") && strings.Contains(text, "panic=\"\"") && !strings.Contains(text, "timeout=true") {
 			return "", "", nil
 		}
 		if len(text) > 600 {
